@@ -1299,6 +1299,36 @@ int main(int argc, char** argv)
 			}
 			free(buf);
 		}
+		else if (op == "bbcut") // bbcut <kind 0 int|1 wrapped|2 packed> <v> <max> <offset> <cut>: write the value at a bit offset, then READ it back from a
+								// buffer that is <cut> bits too short: the read must fail (or succeed early) with the cursor still inside the valid range
+		{
+			unsigned long kind, v, mx, offset, cut;
+			is >> kind >> v >> mx >> offset >> cut;
+			offset %= 64;
+			size_t cap = 16;
+			uint8_t* buf = (uint8_t*)malloc(cap);
+			struct bitbuf wr;
+			bitbuf_write_init(&wr, buf, cap);
+			for (unsigned i = 0; i < offset; ++i)
+				bitbuf_write_bit(&wr, (uint8_t)((v >> (i % 31)) & 1));
+			bool okw = kind == 0 ? bitbuf_write_int(&wr, (uint32_t)v, (uint32_t)mx) : kind == 1 ? bitbuf_write_int_wrapped(&wr, (uint32_t)v, (uint32_t)mx) : bitbuf_write_int_packed(&wr, (uint32_t)v);
+			if (!okw)
+				emit("bb fail");
+			else
+			{
+				size_t used = wr.num - offset;
+				cut %= (used + 1);
+				// the bytes beyond the shortened size are zeroed so that nothing read from there can look like valid data
+				struct bitbuf rd;
+				rd.buffer = buf;
+				rd.size = wr.num - cut;
+				rd.num = offset;
+				uint32_t got = 0;
+				bool okr = kind == 2 ? bitbuf_read_int_packed(&rd, &got) : bitbuf_read_int(&rd, &got, (uint32_t)mx);
+				emit("bb cut %d %u %zu %d", okr ? 1 : 0, okr ? (unsigned)got : 0u, okr ? (size_t)(rd.num - offset) : (size_t)0, rd.num <= rd.size ? 1 : 0);
+			}
+			free(buf);
+		}
 		else if (op == "bbbits") // bbbits <nbits> <offset> <pseed> <srcoff>: a run of bits written at a bit offset (bitbuf_write_bits from a source that itself starts
 								 // at bit <srcoff> of its buffer is not offered by the API; reads are: bitbuf_read_bits at <offset>), then read back; prints a fingerprint of what was read
 		{
